@@ -76,6 +76,7 @@ type Term struct {
 	A0   int
 	A1   int
 	ID   int
+	cl   int8
 }
 
 func (t *Term) IsConst() bool { return t.Op == OpConst }
@@ -243,6 +244,12 @@ func (c *TermCtx) Eq(a, b *Term) *Term {
 	if a.IsConst() && b.IsConst() {
 		return c.Bool(a.Val == b.Val)
 	}
+	if a.IsConst() && c.pushable(b) {
+		return c.mapLeaves(b, func(l *Term) *Term { return c.Eq(a, l) }, map[*Term]*Term{})
+	}
+	if b.IsConst() && c.pushable(a) {
+		return c.mapLeaves(a, func(l *Term) *Term { return c.Eq(l, b) }, map[*Term]*Term{})
+	}
 	if a.W == 0 {
 		if a.IsConst() {
 			if a.Val != 0 {
@@ -341,6 +348,12 @@ func (c *TermCtx) Bin(op Op, a, b *Term) *Term {
 			return c.BV(v, a.W)
 		}
 	}
+	if a.IsConst() && c.pushable(b) {
+		return c.mapLeaves(b, func(l *Term) *Term { return c.Bin(op, a, l) }, map[*Term]*Term{})
+	}
+	if b.IsConst() && c.pushable(a) {
+		return c.mapLeaves(a, func(l *Term) *Term { return c.Bin(op, l, b) }, map[*Term]*Term{})
+	}
 	// light identities
 	switch op {
 	case OpBvAdd, OpBvOr, OpBvXor:
@@ -400,6 +413,12 @@ func (c *TermCtx) Cmp(op Op, a, b *Term) *Term {
 	if a == b {
 		return c.Bool(op == OpBvUle || op == OpBvSle)
 	}
+	if a.IsConst() && c.pushable(b) {
+		return c.mapLeaves(b, func(l *Term) *Term { return c.Cmp(op, a, l) }, map[*Term]*Term{})
+	}
+	if b.IsConst() && c.pushable(a) {
+		return c.mapLeaves(a, func(l *Term) *Term { return c.Cmp(op, l, b) }, map[*Term]*Term{})
+	}
 	return c.mk(&Term{Op: op, W: 0, Args: []*Term{a, b}})
 }
 
@@ -426,6 +445,9 @@ func (c *TermCtx) Extract(a *Term, hi, lo int) *Term {
 	}
 	if a.IsConst() {
 		return c.BV(a.Val>>uint(lo), hi-lo+1)
+	}
+	if c.pushable(a) {
+		return c.mapLeaves(a, func(l *Term) *Term { return c.Extract(l, hi, lo) }, map[*Term]*Term{})
 	}
 	switch a.Op {
 	case OpZext, OpSext:
@@ -462,6 +484,9 @@ func (c *TermCtx) Zext(a *Term, to int) *Term {
 	}
 	if a.Op == OpZext {
 		return c.Zext(a.Args[0], to)
+	}
+	if c.pushable(a) {
+		return c.mapLeaves(a, func(l *Term) *Term { return c.Zext(l, to) }, map[*Term]*Term{})
 	}
 	return c.mk(&Term{Op: OpZext, W: to, Args: []*Term{a}, A0: to - a.W})
 }
@@ -688,3 +713,42 @@ func (t *Term) Eval(env map[string]uint64, memo map[int]uint64) uint64 {
 }
 
 var _ = bits.Len
+
+// ---------- pushing operations through ite-trees with constant leaves (table lookups) ----------
+
+// constLeaves reports whether t is an ite-tree all of whose leaves are constants.
+func (t *Term) constLeaves() bool {
+	if t.cl != 0 {
+		return t.cl == 1
+	}
+	r := false
+	switch t.Op {
+	case OpConst:
+		r = true
+	case OpIte:
+		r = t.Args[1].constLeaves() && t.Args[2].constLeaves()
+	}
+	if r {
+		t.cl = 1
+	} else {
+		t.cl = 2
+	}
+	return r
+}
+
+// mapLeaves rebuilds an ite-tree with constant leaves, applying f to every leaf.
+func (c *TermCtx) mapLeaves(t *Term, f func(*Term) *Term, memo map[*Term]*Term) *Term {
+	if t.Op == OpConst {
+		return f(t)
+	}
+	if r, ok := memo[t]; ok {
+		return r
+	}
+	r := c.Ite(t.Args[0], c.mapLeaves(t.Args[1], f, memo), c.mapLeaves(t.Args[2], f, memo))
+	memo[t] = r
+	return r
+}
+
+func (c *TermCtx) pushable(t *Term) bool {
+	return t.Op == OpIte && t.constLeaves()
+}
